@@ -448,6 +448,43 @@ def unknown_payload(rng, tables, n=None):
     return bytes(body)
 
 
+def crc_twin(rng, fr):
+    """a different valid frame of the same length with the same three checksum bytes: the generator pattern
+    (25 bits) XORed into the payload leaves the CRC-24Q unchanged; None when the payload is shorter than 4 bytes"""
+    n = (len(fr) - 6) * 8 - 24          # the first three payload bytes (message number, sub-type) stay as they are
+    if n < 25:
+        return None
+    x = int.from_bytes(fr[3:-3], "big")
+    k = rng.randint(0, n - 25)
+    x ^= 0x1864CFB << k
+    if rng.random() < 0.5 and n >= 60:
+        x ^= 0x1864CFB << rng.randint(0, n - 25)
+    tw = fr[:3] + x.to_bytes(len(fr) - 6, "big") + fr[-3:]
+    assert crc24q_ref(tw) == 0
+    return tw if tw != fr else None
+
+
+def deflate_stored(rng, data, raw_only=False):
+    """raw DEFLATE made by hand from stored blocks (RFC 1951 3.2.4) with arbitrary values in the five padding bits
+    of each block header - valid input that no compressor emits"""
+    out = b""
+    pieces = []
+    i = 0
+    while i < len(data) or not pieces:
+        k = rng.randint(0, min(20, len(data) - i)) if len(data) - i > 0 else 0
+        if k == 0 and i < len(data):
+            k = 1
+        pieces.append(data[i:i + k])
+        i += k
+        if i >= len(data):
+            break
+    for j, pc in enumerate(pieces):
+        final = 1 if j == len(pieces) - 1 else 0
+        pad = rng.choice([0, 0x1F, rng.randrange(32), 0x0F])          # bits 3..7 of the header byte are ignored
+        out += bytes([final | (pad << 3)]) + len(pc).to_bytes(2, "little") + (len(pc) ^ 0xFFFF).to_bytes(2, "little") + pc
+    return out
+
+
 def with_crc(prefix, target):
     """prefix ++ three bytes chosen so that the CRC-24Q of the whole is `target`"""
     reg = target ^ crc24q_ref(prefix + bytes(3))
@@ -511,10 +548,14 @@ def enc_chunk(rng, data):
     return h.encode() + b"\r\n" + data + b"\r\n"
 
 
-def compress_for(enc, data):
+def compress_for(enc, data, rng=None):
     if enc & 8:
-        c = zlib.compressobj(wbits=-zlib.MAX_WBITS)
-        data = c.compress(data) + c.flush()
+        if rng is not None and rng.random() < 0.35:
+            data = deflate_stored(rng, data)          # hand-assembled stored blocks, odd padding bits
+            assert zlib.decompress(data, wbits=-zlib.MAX_WBITS) is not None
+        else:
+            c = zlib.compressobj(wbits=-zlib.MAX_WBITS)
+            data = c.compress(data) + c.flush()
     if enc & 4:
         data = zlib.compress(data)
     if enc & 2:
